@@ -44,6 +44,9 @@ type c16Case struct {
 	Vanish    string   `json:"vanish"`         // "", "<db>/<key>@dump", "<db>/<key>@pttl"
 	KeyFile   int      `json:"key_file_lines"` // -1: SCAN mode; n: key file with the first n keys of db 0 (+ missing ones)
 	Blank     int      `json:"blank_line,omitempty"` // key file: 0 none, k: an empty line in front of line k-1 (k-1 = n: at the end)
+	// BigFile: the key file is longer than the line scanner's 4 KiB buffer: 1200 lines naming absent
+	// keys with the real keys at lines BigFile.. (0: ordinary small file)
+	BigFile int `json:"big_key_file_first_real_line,omitempty"`
 }
 
 func c16Entry(k c16Key) *mredis.Entry {
@@ -107,6 +110,18 @@ func c16Run(t *testing.T, c c16Case) (kind, what string) {
 		}
 		if c.Blank == c.KeyFile+1 {
 			lines = append(lines, "")
+		}
+		if c.BigFile > 0 {
+			lines = nil
+			k := 0
+			for i := 0; i < 1200; i++ {
+				if i >= c.BigFile && k < c.KeyFile && k < len(c.Keys) {
+					lines = append(lines, c.Keys[k].Name)
+					k++
+				} else {
+					lines = append(lines, fmt.Sprintf("missing%04d", i))
+				}
+			}
 		}
 		body := strings.Join(lines, "\n")
 		if len(lines) > 0 {
@@ -513,6 +528,15 @@ func TestVerif_C16(t *testing.T) {
 				for blank := 0; blank <= lines+1; blank++ {
 					run(c16Case{Keys: kf, ScanCount: sc, Threshold: thr, KeyExists: "none", TargetDB: -1, KeyFile: lines, Blank: blank})
 				}
+			}
+		}
+	}
+	// key files longer than the scanner's buffer: the real keys sit at different distances from
+	// the 4 KiB boundary, pages of 7 / 100 lines
+	for _, first := range []int{1, 320, 330, 338, 341, 345, 420, 670, 683, 1196} {
+		for _, sc := range []uint32{7, 100} {
+			for _, thr := range []uint64{1 << 30, 40} {
+				run(c16Case{Keys: kf, ScanCount: sc, Threshold: thr, KeyExists: "none", TargetDB: -1, KeyFile: 4, BigFile: first})
 			}
 		}
 	}
